@@ -206,10 +206,8 @@ harnesses! {
     fn c13_shed_only_own_key() [unwind 3] { shed_only_own_key() }
     fn c13_limit2_third_shed() [unwind 3] { limit2_third_shed() }
     fn c13_two_keys_independent() [unwind 4] { two_keys_scenario() }
-    fn c13_limit2_count_does_not_drift() [unwind 4] { limit2_scenario() }
     fn c13_stale_close_notification() [unwind 3] { stale_close_scenario() }
     fn c13_limit1_steps3() [unwind 5] { run(1, 3) }
-    fn c13_limit1_steps4() [unwind 6] { run(1, 4) }
 }
 
 #[cfg(all(test, verif_replay))]
